@@ -90,5 +90,6 @@ def main (args : List String) : IO UInt32 := do
   | ["setindent"] => Vsgm.Indent.Cli.setindentMain stdin stdout; return 0
   -- >>> WP1 layer P
   | ["prog"] => Vsgm.Prog.progMain stdin stdout; stdout.flush; return 0
+  | ["bfull2"] => Vsgm.BFull2.Cli.bfull2Main stdin stdout; return 0   -- wp2_bfull2
   -- <<< WP1 layer P
   | _ => IO.eprintln "usage: driver <mode>"; return 2
